@@ -17,6 +17,14 @@ secondary witness -- the event tap.  No model is involved.
               could have produced) - MARGIN.  Configured delays of forced scenarios are >= 1.5 s, so
               the threshold is >= 1 s while an undelayed retry takes a few tens of milliseconds;
   not forced: start(k+1) - end(k) >= configured delay (half of it with jitter), never sooner.
+
+Second family (C06 only): the two other per-test settings with a command-line and an environment
+source, success-output / failure-output (`--success-output`, `--failure-output`,
+NEXTEST_SUCCESS_OUTPUT, NEXTEST_FAILURE_OUTPUT). Every test prints a unique marker; the
+configuration (selected profile, default profile, per-test overrides) says one thing, the command
+line / environment the opposite; the marker must (not) appear in nextest's stderr as the
+command-line / environment value dictates (command line before environment), and as the
+configuration dictates for the setting that is not forced.
 """
 import os, threading
 import vlib, e2e, e2e_general
@@ -280,6 +288,110 @@ def oracle(sc, res):
     return None
 
 
+# ---------------------------------------------------------------- success-output / failure-output
+
+BUILTIN_DISPLAY = {"success-output": "never", "failure-output": "immediate"}   # default-config.toml
+
+
+def otest(bin_, name, passes):
+    return dict(bin=bin_, name=name, passes=passes, marker=f"MARKER<{name.upper()}:{'ok' if passes else 'bad'}>")
+
+
+def oscen(name, tests, selected=None, default=None, ov_selected=(), ov_default=(), cli=None, env=None):
+    """selected / default: {setting: value} at profile level; ov_*: [(test name, {setting: value})];
+    cli / env: {setting: value} forced from the command line / the environment"""
+    return dict(kind="output", name=name, tests=tests, selected=selected or {}, default=default or {},
+                ov_selected=list(ov_selected), ov_default=list(ov_default), cli=cli or {}, env=env or {},
+                profile="ci", threads=2)
+
+
+def directed_output():
+    S, F = "success-output", "failure-output"
+    out = []
+    # the configuration shows everything, the command line / the environment nothing
+    out.append(oscen("output-forced-never",
+                     [otest("alpha::t1", "o1_fail", False), otest("alpha::t2", "o1_fail_ov", False),
+                      otest("beta::t1", "o1_pass", True), otest("beta::t2", "o1_pass_ov", True)],
+                     selected={F: "immediate", S: "immediate"}, default={F: "immediate-final"},
+                     ov_selected=[("o1_fail_ov", {F: "immediate-final"})], ov_default=[("o1_pass_ov", {S: "final"})],
+                     cli={F: "never"}, env={S: "never"}))
+    # the converse: the configuration hides everything, the command line / the environment shows it
+    out.append(oscen("output-forced-immediate",
+                     [otest("alpha::t1", "o2_fail", False), otest("alpha::t2", "o2_fail_ov", False),
+                      otest("beta::t1", "o2_pass", True), otest("beta::t2", "o2_pass_ov", True)],
+                     selected={F: "never"}, default={S: "never", F: "never"},
+                     ov_selected=[("o2_pass_ov", {S: "never"})], ov_default=[("o2_fail_ov", {F: "never"})],
+                     cli={S: "immediate"}, env={F: "immediate"}))
+    # both sources for failure-output (the command line wins); success-output is not forced and
+    # follows the configuration test by test (override, selected profile)
+    out.append(oscen("output-cli-beats-env",
+                     [otest("alpha::t1", "o3_fail", False), otest("beta::t1", "o3_pass_shown", True),
+                      otest("beta::t2", "o3_pass_hidden", True)],
+                     selected={F: "immediate", S: "never"}, ov_default=[("o3_pass_shown", {S: "immediate"})],
+                     cli={F: "never"}, env={F: "immediate-final"}))
+    return out
+
+
+def config_toml_output(sc):
+    kv = lambda d: [f'{k} = "{v}"' for k, v in d.items()]
+    lines = ["[profile.default]", "fail-fast = false", "retries = 0", f'test-threads = {sc["threads"]}'] + kv(sc["default"])
+    for name, d in sc["ov_default"]:
+        lines += ["[[profile.default.overrides]]", f"filter = 'test(={name})'"] + kv(d)
+    lines += ["", f"[profile.{sc['profile']}]"] + kv(sc["selected"])
+    for name, d in sc["ov_selected"]:
+        lines += [f"[[profile.{sc['profile']}.overrides]]", f"filter = 'test(={name})'"] + kv(d)
+    return "\n".join(lines) + "\n"
+
+
+def run_output(rig, sc, timeout=60):
+    bins = {}
+    for t in sc["tests"]:
+        beh = {"stdout": {"text": t["marker"] + "\n"}, "sleep": 0.02, "exit": 0 if t["passes"] else 1}
+        bins.setdefault(t["bin"], {"tests": {}})["tests"][t["name"]] = {"ignored": False, "attempts": [beh]}
+    args = ["--profile", sc["profile"]]
+    for k, v in sc["cli"].items():
+        args += ["--" + k, v]
+    env = {"NEXTEST_" + k.upper().replace("-", "_"): v for k, v in sc["env"].items()}
+    return rig.run({"bins": bins}, config_toml_output(sc), args=args, env_extra=env or None, timeout=timeout)
+
+
+def oracle_output(sc, res):
+    w = e2e_general.basic_failures(res)
+    if w:
+        return w
+    inv = e2e_general.invocations(res)
+    for t in sc["tests"]:
+        if len(inv.get((t["bin"], t["name"]), [])) != 1:
+            return f"{t['name']}: expected exactly one test process, the puppet log has {len(inv.get((t['bin'], t['name']), []))}"
+        setting = "success-output" if t["passes"] else "failure-output"
+        # documented order: command line, environment, first matching override (selected profile's, then
+        # the default profile's), selected profile, default profile, built-in default
+        if setting in sc["cli"]:
+            val, src = sc["cli"][setting], "--" + setting
+        elif setting in sc["env"]:
+            val, src = sc["env"][setting], "NEXTEST_" + setting.upper().replace("-", "_")
+        else:
+            val = None
+            for lst, what in ((sc["ov_selected"], "override"), (sc["ov_default"], "default-profile override")):
+                for n, d in lst:
+                    if val is None and n == t["name"] and setting in d:
+                        val, src = d[setting], what
+            if val is None and setting in sc["selected"]:
+                val, src = sc["selected"][setting], "profile"
+            if val is None and setting in sc["default"]:
+                val, src = sc["default"][setting], "default profile"
+            if val is None:
+                val, src = BUILTIN_DISPLAY[setting], "built-in default"
+        shown = t["marker"] in res["stderr"]
+        if shown != (val != "never"):
+            return (f"{t['name']} ({'passes' if t['passes'] else 'fails'}): its output is "
+                    f"{'shown' if shown else 'not shown'} by nextest although {setting} = {val} (from {src})")
+    want_rc = 0 if all(t["passes"] for t in sc["tests"]) else 100
+    if res["rc"] != want_rc:
+        return f"exit status {res['rc']}, expected {want_rc}"
+    return None
+
+
 # ---------------------------------------------------------------- the stage
 
 _rig = [None]
@@ -296,6 +408,8 @@ def stage(chk, prop, tier, seed, n_quick=4, n_thorough=40, par=4, only=None):
     rig = get_rig()
     r = vlib.rng_for(seed, "e2e-retries")
     scs = directed() + [gen(r, i) for i in range(n_thorough if tier == "thorough" else n_quick)]
+    if prop == "C06":
+        scs += directed_output()
     if only is not None:
         scs = [only]
     results = [None] * len(scs)
@@ -308,13 +422,21 @@ def stage(chk, prop, tier, seed, n_quick=4, n_thorough=40, par=4, only=None):
                 if not idx:
                     return
                 i = idx.pop(0)
-            results[i] = run(rig, scs[i])
+            results[i] = (run_output if scs[i].get("kind") == "output" else run)(rig, scs[i])
 
     ths = [threading.Thread(target=worker) for _ in range(par)]
     [t.start() for t in ths]
     [t.join() for t in ths]
     bad = None
     for sc, res in zip(scs, results):
+        if sc.get("kind") == "output":
+            chk.count("e2e_output_runs")
+            chk.count("e2e_output_tests", len(sc["tests"]))
+            why = oracle_output(sc, res)
+            if why and bad is None:
+                bad = (sc, res, why)
+            rig.cleanup(res)
+            continue
         chk.count("e2e_forced_runs")
         f, how = forced_value(sc)
         chk.count("e2e_forced_by=" + ("none" if f is None else "both" if sc["env"] is not None and sc["cli"] is not None
@@ -331,8 +453,12 @@ def stage(chk, prop, tier, seed, n_quick=4, n_thorough=40, par=4, only=None):
     if bad:
         sc, res, why = bad
         chk.violation("counterexample", "oracle-e2e-forced:" + prop,
-                      dict(clause=why, input=dict(forced_scenario=sc), config=config_toml(sc),
-                           args=res["cmd"][9:], env=({"NEXTEST_RETRIES": str(sc["env"])} if sc["env"] is not None else {}),
+                      dict(clause=why, input=dict(forced_scenario=sc),
+                           config=(config_toml_output if sc.get("kind") == "output" else config_toml)(sc),
+                           args=res["cmd"][9:],
+                           env=({"NEXTEST_" + k.upper().replace("-", "_"): v for k, v in sc["env"].items()}
+                                if sc.get("kind") == "output" else
+                                {"NEXTEST_RETRIES": str(sc["env"])} if sc["env"] is not None else {}),
                            exit_status=res["rc"], stderr_tail=res["stderr"][-1500:],
                            tap=[{k: v for k, v in e.items() if k not in ("stats",)} for e in res["tap"]][:120],
                            puppet_log=[x for x in res["log"] if x.get("ev") in ("start", "end")][:120]))
@@ -347,6 +473,11 @@ def replay(d):
     for k in ("ov_selected", "ov_default"):
         sc[k] = [tuple(x) for x in sc[k]]
     rig = get_rig()
+    if sc.get("kind") == "output":
+        res = run_output(rig, sc)
+        why = oracle_output(sc, res)
+        rig.cleanup(res)
+        return why
     res = run(rig, sc)
     why = oracle(sc, res)
     rig.cleanup(res)
